@@ -436,7 +436,7 @@ def check_controller(case, ctx: Ctx):
         ctx.rec.label("controller:skipped:consumer-before-last-loop-stage")
         return
     for c in list(case["cons"]) + list(case["loop"]):
-        staged = [case["loop"][u["c"]]["name"] for u in c["uses"] if u["method"] in ("copy", "link")]
+        staged = [case["loop"][u["c"]]["name"] for u in c["uses"] if "c" in u and u["method"] in ("copy", "link")]
         if len(staged) != len(set(staged)):
             # two same-named producers (of different stages) copied/linked into one working directory collide on the
             # destination name - a limit of staging, not of loops (thorough seed 11, second run)
